@@ -122,7 +122,7 @@ class Check:
         Each theorem is one obligation. Returns True iff all discharged."""
         prop_file = prop_file or ("Properties/%s.v" % self.prop)
         src = open(os.path.join(COQ, prop_file)).read()
-        thms = re.findall(r"^\s*(?:Theorem|Corollary)\s+([A-Za-z0-9_']+)", strip_coq_comments(src), re.M)
+        thms = re.findall(r"^\s*(?:Theorem|Corollary|Lemma|Example|Proposition|Fact|Remark)\s+([A-Za-z0-9_']+)", strip_coq_comments(src), re.M)
         self.obligations += len(thms)
         bad = self.scan_forbidden()
         self.obligations += 1
